@@ -62,6 +62,10 @@ type Term struct {
 	name string // OVar / OUF
 	id   int
 	emit bool // defined in the solver session of this worker
+	vars []int // sorted ids of the variables (and UF pseudo-variables) below this term
+	varsDone bool
+	plit bool // indicator literal declared in the solver
+	h1, h2 uint64 // structural hash (identical across workers)
 	hasUF bool
 }
 
@@ -81,6 +85,9 @@ type TermCtx struct {
 	False *Term
 	ufs   map[string]*ufDecl
 	vars  []*Term // in creation order (per worker, across runs)
+	varByID map[int]*Term
+	ufVarID map[string]int
+	probes  map[*Term]*Term
 }
 
 type ufDecl struct {
@@ -91,7 +98,7 @@ type ufDecl struct {
 }
 
 func NewTermCtx() *TermCtx {
-	c := &TermCtx{tab: map[termKey]*Term{}, tabN: map[string]*Term{}, ufs: map[string]*ufDecl{}}
+	c := &TermCtx{tab: map[termKey]*Term{}, tabN: map[string]*Term{}, ufs: map[string]*ufDecl{}, varByID: map[int]*Term{}, ufVarID: map[string]int{}, probes: map[*Term]*Term{}}
 	c.True = c.mk(OConst, 0, 1, "")
 	c.False = c.mk(OConst, 0, 0, "")
 	return c
@@ -122,6 +129,7 @@ func (c *TermCtx) mk(op Op, w int, cv uint64, name string, a ...*Term) *Term {
 		if op == OUF {
 			t.hasUF = true
 		}
+		t.structHash()
 		c.tab[k] = t
 		return t
 	}
@@ -144,6 +152,7 @@ func (c *TermCtx) mk(op Op, w int, cv uint64, name string, a ...*Term) *Term {
 	if op == OUF {
 		t.hasUF = true
 	}
+	t.structHash()
 	c.tabN[k] = t
 	return t
 }
@@ -194,6 +203,7 @@ func (c *TermCtx) Var(name string, w int) *Term {
 	}
 	t := c.mk(OVar, w, 0, name)
 	c.vars = append(c.vars, t)
+	c.varByID[t.id] = t
 	return t
 }
 
@@ -890,4 +900,123 @@ func (t *Term) String() string {
 		return t.name
 	}
 	return fmt.Sprintf("t%d", t.id)
+}
+
+// VarsOf returns the sorted ids of the variables below t; each UF symbol counts as one
+// pseudo-variable (negative id) so that all its applications stay in one slice.
+func (c *TermCtx) VarsOf(t *Term) []int {
+	if t.varsDone {
+		return t.vars
+	}
+	switch t.op {
+	case OConst:
+	case OVar:
+		t.vars = []int{t.id}
+	default:
+		var acc []int
+		for _, a := range t.a {
+			acc = mergeSorted(acc, c.VarsOf(a))
+		}
+		if t.op == OUF {
+			id, ok := c.ufVarID[t.name]
+			if !ok {
+				id = -(len(c.ufVarID) + 1)
+				c.ufVarID[t.name] = id
+			}
+			acc = mergeSorted(acc, []int{id})
+		}
+		t.vars = acc
+	}
+	t.varsDone = true
+	return t.vars
+}
+
+func mergeSorted(a, b []int) []int {
+	if len(a) == 0 {
+		return b
+	}
+	if len(b) == 0 {
+		return a
+	}
+	out := make([]int, 0, len(a)+len(b))
+	i, j := 0, 0
+	for i < len(a) && j < len(b) {
+		switch {
+		case a[i] < b[j]:
+			out = append(out, a[i])
+			i++
+		case a[i] > b[j]:
+			out = append(out, b[j])
+			j++
+		default:
+			out = append(out, a[i])
+			i++
+			j++
+		}
+	}
+	out = append(out, a[i:]...)
+	out = append(out, b[j:]...)
+	return out
+}
+
+// groupProbe is a tautology over v that is not folded away (used to address v's slice in a query).
+func (c *TermCtx) groupProbe(v *Term) *Term {
+	if p, ok := c.probes[v]; ok {
+		return p
+	}
+	var p *Term
+	if v.w == 0 {
+		p = c.mk(OBOr, 0, 0, "", v, c.mk(OBNot, 0, 0, "", v))
+	} else {
+		p = c.mk(OUle, 0, 0, "", v, v)
+	}
+	c.probes[v] = p
+	return p
+}
+
+// Deep renders the term as an s-expression (debugging).
+func (t *Term) Deep(depth int) string {
+	if t.op == OConst || t.op == OVar || depth == 0 {
+		return t.String()
+	}
+	s := "(" + opSMT[t.op]
+	if t.op == OExtract {
+		s = fmt.Sprintf("(extract[%d:%d]", t.c>>16, t.c&0xffff)
+	}
+	if t.op == OZext {
+		s = "(zext"
+	}
+	if t.op == OSext {
+		s = "(sext"
+	}
+	if t.op == OUF {
+		s = "(" + t.name
+	}
+	for _, a := range t.a {
+		s += " " + a.Deep(depth-1)
+	}
+	return s + ")"
+}
+
+func hmix(h, x uint64) uint64 {
+	h ^= x + 0x9e3779b97f4a7c15 + (h << 6) + (h >> 2)
+	h *= 0xff51afd7ed558ccd
+	h ^= h >> 33
+	return h
+}
+
+func (t *Term) structHash() {
+	a := uint64(t.op)<<8 | uint64(t.w)<<24 | 0x51
+	b := uint64(t.op)*0x9e3779b1 + uint64(t.w)*31 + 7
+	a = hmix(a, t.c)
+	b = hmix(b, t.c^0xdeadbeefcafe)
+	for i := 0; i < len(t.name); i++ {
+		a = hmix(a, uint64(t.name[i]))
+		b = hmix(b, uint64(t.name[i])*131+uint64(i))
+	}
+	for _, x := range t.a {
+		a = hmix(a, x.h1)
+		b = hmix(b, x.h2)
+	}
+	t.h1, t.h2 = a, b
 }
